@@ -1340,7 +1340,7 @@ Proof.
   set (s := 52 - e2') in *.
   set (q := if 0 <=? s then div_rne (num * 2 ^ s) den else div_rne num (den * 2 ^ (- s))) in *.
   assert (Hq : 0 <= q).
-  { subst q. destruct (0 <=? s).
+  { subst q. destruct (Z.leb_spec 0 s).
     - apply div_rne_nonneg; [|exact Hd]. apply Z.mul_nonneg_nonneg; [exact Hn|apply Z.pow_nonneg; lia].
     - apply div_rne_nonneg; [exact Hn|]. apply Z.mul_pos_pos; [exact Hd|].
       destruct (Z_le_gt_dec 0 (- s)); [apply Z.pow_pos_nonneg; lia|].
@@ -1371,13 +1371,13 @@ Proof.
   assert (Hgoal : forall b0, (if neg then b0 + 9223372036854775808 else b0) = b ->
                              0 <= b0 < 9218868437227405312 -> 0 <= b < 18446744073709551616).
   { intros b0 <- Hb0. destruct neg; lia. }
-  destruct (m =? 0); [inversion H; eapply Hgoal; eauto; lia|].
+  destruct (m =? 0); [injection H as H1; apply (Hgoal 0 H1); lia|].
   destruct (310 <? e10 + nd); [discriminate|].
-  destruct (e10 + nd <? -330); [inversion H; eapply Hgoal; eauto; lia|].
+  destruct (e10 + nd <? -330); [injection H as H1; apply (Hgoal 0 H1); lia|].
   cbv zeta in H.
   match type of H with context [np_tail ?n ?d ?e] => destruct (np_tail n d e) as [b0|] eqn:E end;
     [|discriminate].
-  inversion H. eapply Hgoal; [eassumption|].
+  injection H as H1. apply (Hgoal b0 H1).
   eapply np_tail_range; [| |exact E].
   - destruct (0 <=? e10); [|exact Hm]. apply Z.mul_nonneg_nonneg; [exact Hm|apply Z.pow_nonneg; lia].
   - destruct (Z.leb_spec 0 e10); [lia|]. apply Z.pow_pos_nonneg; lia.
@@ -1405,10 +1405,10 @@ Proof.
     + inversion H; subst. cbn [num_range]. lia.
     + destruct (negb neg && (digits_val ip 0 <=? max_uint64)) eqn:E2; [|discriminate].
       inversion H; subst. cbn [num_range]. lia.
-  - set (r1 := c1 :: r1') in *.
-    destruct (match r1 with 46 :: r => take_digits r [] | _ => ([], r1) end) as [fp r2] eqn:Efp.
+  - cbv zeta in H.
+    match type of H with context [let '(_, _) := ?X in _] => destruct X as [fp r2] eqn:Efp end.
     assert (Hfp : Forall digitP fp).
-    { subst r1. destruct (Z.eq_dec c1 46) as [->|Hne].
+    { destruct (Z.eq_dec c1 46) as [->|Hne].
       - eapply take_digits_digits; [exact Efp|constructor].
       - assert (fp = []) as ->; [|constructor].
         destruct c1 as [|p|p]; try (inversion Efp; reflexivity).
@@ -1420,3 +1420,552 @@ Proof.
     eapply nearest_range; [|exact En].
     apply digits_val_nonneg; [|lia]. apply Forall_app. split; assumption.
 Qed.
+
+(* ---------- the JSON reference reading ------------------------------------- *)
+
+(* what the JSON reading produces: no tags, no byte strings, Length -1, string
+   keys, numbers inside their Go types *)
+Fixpoint jshape (n : tnode) : Prop :=
+  match n with
+  | Node tg v =>
+    tg = None /\
+    match v with
+    | VNull | VBool _ => True
+    | VByt _ => False
+    | VStr s => bytes_ok s
+    | VInt i => min_int64 <= i <= max_int64
+    | VUint u => 0 <= u <= max_uint64
+    | VFlt b => 0 <= b < 18446744073709551616
+    | VArr d items => d = -1 /\ fold_right (fun x acc => jshape x /\ acc) True items
+    | VMap d es => d = -1 /\
+        fold_right (fun kv acc =>
+          ((exists k, fst kv = Node None (VStr k) /\ bytes_ok k) /\ jshape (snd kv)) /\ acc) True es
+    end
+  end.
+
+Definition jentry (kv : tnode * tnode) : Prop :=
+  (exists k, fst kv = Node None (VStr k) /\ bytes_ok k) /\ jshape (snd kv).
+
+Lemma jshape_arr xs : Forall jshape xs -> jshape (Node None (VArr (-1) xs)).
+Proof. intros H. cbn [jshape]. repeat split. apply fold_pair_Forall. exact H. Qed.
+
+Lemma jshape_map es : Forall jentry es -> jshape (Node None (VMap (-1) es)).
+Proof. intros H. cbn [jshape]. repeat split. apply (fold_pair_Forall jentry). exact H. Qed.
+
+Lemma jgood_jnum mb : jgood numsoft jshape (jnum mb).
+Proof.
+  intros bs a rest G. unfold jnum in *.
+  destruct (num_scan (num_start mb) bs []) as [[more r]|e] eqn:E; [|discriminate].
+  destruct (num_token (mb :: more)) as [v|e] eqn:T; [|discriminate].
+  pose proof (num_token_range _ _ T) as R.
+  destruct v; cbn [numres] in G; try discriminate; inversion G; subst; cbn [num_range] in R.
+  all: split; [cbn [jshape]; split; [reflexivity|exact R]|].
+  all: intros ext Hc; rewrite (num_scan_ext _ _ _ _ _ ext E);
+    [rewrite T; reflexivity|]; intros Hr; apply Hc; [exact Hr|exact I].
+Qed.
+
+Definition jg_value (f : nat) := forall l, jgood numsoft jshape (jpvalue f l).
+Definition jg_body (f : nat) := forall l mb, jgood numsoft jshape (jpbody f l mb).
+Definition jg_elems (f : nat) := forall l some, jgood nosoft (Forall jshape) (jpelements f l some).
+Definition jg_membs (f : nat) := forall l some, jgood nosoft (Forall jentry) (jpmembers f l some).
+
+Lemma jg_value_step f : jg_body f -> jg_value (S f).
+Proof.
+  intros Hb l.
+  eapply jgood_ext with (h := fun bs => pcons (jpbody f l) (skip_ws bs)); [intros bs; reflexivity|].
+  apply jgood_ws. apply Hb.
+Qed.
+
+Lemma jg_body_step f : jg_elems f -> jg_membs f -> jg_body (S f).
+Proof.
+  intros He Hm l mb.
+  eapply jgood_ext; [intros r; cbn [jpbody]; reflexivity|]. cbv beta.
+  destruct (mb =? 123).
+  { eapply (jgood_map nosoft _ numsoft _ (fun es => Node None (VMap (-1) es))); [apply Hm| |intros a []].
+    intros es Hes. apply jshape_map. exact Hes. }
+  destruct (mb =? 91).
+  { eapply (jgood_map nosoft _ numsoft _ (fun xs => Node None (VArr (-1) xs))); [apply He| |intros a []].
+    intros xs Hxs. apply jshape_arr. exact Hxs. }
+  destruct (mb =? 110); [apply jgood_literal; cbn [jshape]; auto|].
+  destruct (mb =? 34).
+  { apply (jgood_sum_map nosoft bytes_ok numsoft jshape dec_string (fun s => Node None (VStr s)));
+      [apply jgood_dec_string| |intros a []].
+    intros s Hs. cbn [jshape]. auto. }
+  destruct (mb =? 102); [apply jgood_literal; cbn [jshape]; auto|].
+  destruct (mb =? 116); [apply jgood_literal; cbn [jshape]; auto|].
+  destruct ((mb =? 45) || is_digit mb); [|apply jgood_err].
+  eapply jgood_ext; [intros r; apply jnum_eq|]. apply jgood_jnum.
+Qed.
+
+Lemma jg_element f l mb : jg_body f -> jg_elems f ->
+  jgood nosoft (Forall jshape) (pbind (jpbody f l mb) (fun x => pmap (cons x) (jpelements f l true))).
+Proof.
+  intros Hb He.
+  eapply jgood_bind with (s1 := numsoft) (P := jshape).
+  - apply Hb.
+  - intros x. eapply jgood_map; [apply He| |intros a []]. intros xs Hxs Hx. constructor; assumption.
+  - intros a b rest _. destruct f as [|f']; unfold pmap; cbn [jpelements skip_ws]; discriminate.
+Qed.
+
+Lemma jg_elems_step f : jg_body f -> jg_elems f -> jg_elems (S f).
+Proof.
+  intros Hb He l some.
+  eapply jgood_ext with (h := fun bs => pcons (fun mb r =>
+    if some then
+      if mb =? 93 then POk [] r
+      else if mb =? 44 then
+        pcons (fun mb2 r2 =>
+          if mb2 =? 93 then (if l then POk [] r2 else PErr EMalformed)
+          else pbind (jpbody f l mb2) (fun x => pmap (cons x) (jpelements f l true)) r2) (skip_ws r)
+      else PErr EMalformed
+    else
+      if mb =? 93 then POk [] r
+      else pbind (jpbody f l mb) (fun x => pmap (cons x) (jpelements f l true)) r) (skip_ws bs)).
+  { intros bs. reflexivity. }
+  apply jgood_ws. intros mb. destruct some.
+  - destruct (mb =? 93); [apply jgood_ret; constructor|].
+    destruct (mb =? 44); [|apply jgood_err].
+    apply jgood_ws. intros mb2.
+    destruct (mb2 =? 93); [destruct l; [apply jgood_ret; constructor|apply jgood_err]|].
+    apply jg_element; assumption.
+  - destruct (mb =? 93); [apply jgood_ret; constructor|]. apply jg_element; assumption.
+Qed.
+
+Definition jmember (f : nat) (l : bool) (mb2 : Z) (r2 : bytes) : pres (list (tnode * tnode)) :=
+  if mb2 =? 34 then
+    match dec_string r2 with
+    | inl (k, r3) =>
+      pcons (fun c r4 =>
+        if c =? 58 then
+          pbind (jpvalue f l) (fun v => pmap (cons (Node None (VStr k), v)) (jpmembers f l true)) r4
+        else PErr EMalformed) (skip_ws r3)
+    | inr e => PErr e
+    end
+  else PErr EMalformed.
+
+Lemma jgood_sum_bind {A B} (P : A -> Prop) (s Q : B -> Prop) (t : bytes -> (A * bytes) + derr)
+      (h : A -> bytes -> pres B) :
+  jgood nosoft P (fun bs => of_sum (t bs)) -> (forall a, jgood s (fun b => P a -> Q b) (h a)) ->
+  jgood s Q (fun bs => match t bs with inl (a, r) => h a r | inr e => PErr e end).
+Proof.
+  intros H Hh. eapply jgood_ext with (h := pbind (fun bs => of_sum (t bs)) h).
+  - intros bs. unfold pbind. destruct (t bs) as [[a r]|e]; reflexivity.
+  - eapply jgood_bind with (s1 := nosoft); [exact H|exact Hh|intros a b rest []].
+Qed.
+
+Lemma jg_member f l mb2 : jg_value f -> jg_membs f -> jgood nosoft (Forall jentry) (jmember f l mb2).
+Proof.
+  intros Hv Hm. unfold jmember. destruct (mb2 =? 34); [|apply jgood_err].
+  apply (jgood_sum_bind bytes_ok nosoft (Forall jentry) dec_string); [apply jgood_dec_string|].
+  intros k. apply jgood_ws. intros c. destruct (c =? 58); [|apply jgood_err].
+  eapply jgood_bind with (s1 := numsoft) (P := jshape).
+  - apply Hv.
+  - intros v. eapply jgood_map; [apply Hm| |intros a []].
+    intros es Hes Hjv Hk. constructor; [|exact Hes]. split; [|exact Hjv].
+    cbn [fst]. exists k. split; [reflexivity|exact Hk].
+  - intros a b rest _. destruct f as [|f']; unfold pmap; cbn [jpmembers skip_ws]; discriminate.
+Qed.
+
+Lemma jg_membs_step f : jg_value f -> jg_membs f -> jg_membs (S f).
+Proof.
+  intros Hv Hm l some.
+  eapply jgood_ext with (h := fun bs => pcons (fun mb r =>
+    if some then
+      if mb =? 125 then POk [] r
+      else if mb =? 44 then
+        pcons (fun mb2 r2 =>
+          if mb2 =? 125 then (if l then POk [] r2 else PErr EMalformed)
+          else jmember f l mb2 r2) (skip_ws r)
+      else PErr EMalformed
+    else
+      if mb =? 125 then POk [] r
+      else jmember f l mb r) (skip_ws bs)).
+  { intros bs. reflexivity. }
+  pose proof (fun mb2 => jg_member f l mb2 Hv Hm) as Hmem.
+  apply jgood_ws. intros mb. destruct some.
+  - destruct (mb =? 125); [apply jgood_ret; constructor|].
+    destruct (mb =? 44); [|apply jgood_err].
+    apply jgood_ws. intros mb2.
+    destruct (mb2 =? 125); [destruct l; [apply jgood_ret; constructor|apply jgood_err]|].
+    apply Hmem.
+  - destruct (mb =? 125); [apply jgood_ret; constructor|]. apply Hmem.
+Qed.
+
+Lemma jg_all : forall f, jg_value f /\ jg_body f /\ jg_elems f /\ jg_membs f.
+Proof.
+  induction f as [|f IH].
+  { repeat split; repeat intro; discriminate. }
+  destruct IH as (IHv & IHb & IHe & IHm).
+  split; [|split; [|split]].
+  - apply jg_value_step; assumption.
+  - apply jg_body_step; assumption.
+  - apply jg_elems_step; assumption.
+  - apply jg_membs_step; assumption.
+Qed.
+
+Lemma jpvalue_shape f l bs n rest : jpvalue f l bs = POk n rest -> jshape n.
+Proof. intros H. destruct (jg_all f) as [Hv _]. apply (Hv l bs n rest H). Qed.
+
+Lemma jpvalue_frame f l bs n rest ext :
+  jpvalue f l bs = POk n rest -> (rest = [] -> numsoft n -> terminator_ok ext) ->
+  jpvalue f l (bs ++ ext) = POk n (rest ++ ext).
+Proof. intros H Hc. destruct (jg_all f) as [Hv _]. apply (Hv l bs n rest H). exact Hc. Qed.
+
+(* ====================================================================== *)
+(* 8. JSON -> CBOR                                                         *)
+(* ====================================================================== *)
+
+Lemma jshape_facts n : jshape n -> shape true n /\ wf_keys key_cbor n /\ wf_keys key_json n.
+Proof.
+  induction n as [tg v Hleaf|tg d items IH|tg d es IH] using tnode_ind'; intros Hs.
+  - destruct Hs as [-> Hv]. unfold min_int64, max_int64, max_uint64 in *.
+    destruct v; try contradiction; cbn [shape wf_keys tag_ok]; repeat split; auto; lia.
+  - destruct Hs as (-> & -> & Hitems). apply fold_pair_Forall in Hitems.
+    pose proof (Forall_mp _ _ _ IH Hitems) as Hq. clear IH.
+    split; [|split].
+    + apply shape_arr; [exact I|left; reflexivity|lia|].
+      eapply Forall_impl; [|exact Hq]. intros x Hx. apply Hx.
+    + apply wf_arr. eapply Forall_impl; [|exact Hq]. intros x Hx. apply Hx.
+    + apply wf_arr. eapply Forall_impl; [|exact Hq]. intros x Hx. apply Hx.
+  - destruct Hs as (-> & -> & Hes). apply (fold_pair_Forall jentry) in Hes.
+    assert (Hq : Forall (fun kv => (exists k, fst kv = Node None (VStr k) /\ bytes_ok k) /\
+                                   shape true (snd kv) /\ wf_keys key_cbor (snd kv) /\ wf_keys key_json (snd kv)) es).
+    { clear -IH Hes. induction IH as [|kv es [H1 H2] _ IHes]; [constructor|].
+      inversion Hes as [|? ? [S1 S2] Hes']; subst. constructor; auto. }
+    clear IH.
+    split; [|split].
+    + apply shape_map; [exact I|left; reflexivity|lia|].
+      eapply Forall_impl; [|exact Hq]. intros [k w] [(s & Hk & Hb) (Hw & _)]. cbn [fst snd] in *. subst k.
+      split; cbn [fst snd shape tag_ok]; auto.
+    + apply wf_map. eapply Forall_impl; [|exact Hq].
+      intros [k w] [(s & Hk & Hb) (_ & Hw & _)]. cbn [fst snd] in *. subst k.
+      split; cbn [fst snd key_wf]; auto.
+    + apply wf_map. eapply Forall_impl; [|exact Hq].
+      intros [k w] [(s & Hk & Hb) (_ & _ & Hw)]. cbn [fst snd] in *. subst k.
+      split; cbn [fst snd key_wf]; auto.
+Qed.
+
+(* the JSON decoder's tokens are always accepted by the CBOR encoder *)
+Lemma j2c_encodes bs toks rest :
+  jdec_run bs = JDOk toks rest ->
+  exists n, jparse_item true bs = POk n rest /\ toks = flatten n /\ jshape n /\
+            enc_ok n /\ len_ok n /\ (str_cap_ok toks = true -> rt_ok n) /\
+            pump_j2c bs = PumpOk (rfc_enc n) rest.
+Proof.
+  intros H. destruct (jdec_sound _ _ _ H) as (n & Hp & ->).
+  pose proof Hp as Hp'. unfold jparse_item in Hp'. apply jpvalue_shape in Hp'.
+  destruct (jshape_facts _ Hp') as (Hs & Hwf & _).
+  destruct (shape_facts _ _ Hs) as (Hlen & _ & Henc & Hrt & _). specialize (Henc Hwf).
+  exists n. repeat split; auto.
+  destruct (cbor_encode_spec n Henc) as (chunks & Hrun & Hcat).
+  unfold pump_j2c. rewrite H, Hrun, Nat.eqb_refl, Hcat. reflexivity.
+Qed.
+
+Theorem pump_j2c_total : forall bs toks rest,
+  jdec_run bs = JDOk toks rest -> exists out, pump_j2c bs = PumpOk out rest.
+Proof. intros bs toks rest H. destruct (j2c_encodes _ _ _ H) as (n & _ & _ & _ & _ & _ & _ & Hp). eauto. Qed.
+
+Theorem pump_j2c_err_iff : forall bs,
+  pump_j2c bs = PumpErr <-> exists e, jparse_item true bs = PErr e.
+Proof.
+  intros bs. split.
+  - intros Hp. destruct (jdec_total bs) as [(toks & rest & H)|(e & toks & H)].
+    + destruct (pump_j2c_total _ _ _ H) as [out Ho]. rewrite Hp in Ho. discriminate.
+    + exists e. eapply jdec_rejects; eauto.
+  - intros [e Hp]. unfold jparse_item in Hp. destruct (jdec_error _ _ _ Hp) as [toks H].
+    unfold pump_j2c. rewrite H. reflexivity.
+Qed.
+
+(* 3. value preservation: the CBOR decoder reads the tokens back, a
+   non-negative Int as Uint ([canon_tok]); everything else is identical *)
+Theorem pump_j2c_value : forall c bs toks rest,
+  jdec_run bs = JDOk toks rest -> str_cap_ok toks = true ->
+  exists out,
+    pump_j2c bs = PumpOk out rest /\
+    (forall tail, exists a, dec_run c (out ++ tail) = DOk (map canon_tok toks) tail a) /\
+    (exists n, jparse_item true bs = POk n rest /\ toks = flatten n /\ out = rfc_enc n /\
+               parse_item c out = POk (canon n) []) /\
+    (exists used, bs = used ++ rest /\ used <> []).
+Proof.
+  intros c bs toks rest H Hcap.
+  destruct (j2c_encodes _ _ _ H) as (n & Hp & -> & Hj & Henc & Hlen & Hrt & Hpump).
+  specialize (Hrt Hcap).
+  assert (Htail : forall tail, exists a, dec_run c (rfc_enc n ++ tail) = DOk (map canon_tok (flatten n)) tail a).
+  { intros tail. destruct (parse_rfc_enc_canon n c tail Henc Hlen Hrt) as [fuel Hf].
+    rewrite <- flatten_canon. exact (dec_complete fuel c _ _ _ Hf). }
+  exists (rfc_enc n). split; [exact Hpump|]. split; [exact Htail|]. split.
+  - exists n. repeat split; auto.
+    destruct (Htail []) as [a Ha]. rewrite app_nil_r in Ha. rewrite <- flatten_canon in Ha.
+    destruct (dec_sound _ _ _ _ _ Ha) as (n' & Hp2 & Hfl). apply flatten_inj in Hfl. subst n'. exact Hp2.
+  - exact (jdec_consumes_prefix _ _ _ H).
+Qed.
+
+(* "exactly the same tokens" is false: JSON's Int 1 is CBOR's Uint 1 *)
+Example pump_j2c_same_tokens_refuted :
+  jdec_run [49] = JDOk [Tok (Int 1) None] [] /\
+  pump_j2c [49] = PumpOk [1] [] /\
+  dec_run false [1] = DOk [Tok (Uint 1) None] [] 0.
+Proof. vm_compute. repeat split; reflexivity. Qed.
+
+(* ... and it is exact when no integer is non-negative *)
+Lemma canon_tok_id_json toks :
+  forallb (fun t => match tv t with
+                    | Int i => i <? 0
+                    | ArrOpen d | MapOpen d => d =? -1
+                    | _ => true end) toks = true ->
+  map canon_tok toks = toks.
+Proof.
+  intros H. apply map_id_Forall. apply Forall_forall. intros [v tg] Hx.
+  rewrite forallb_forall in H. specialize (H _ Hx). unfold canon_tok. cbn [tv tag] in *.
+  destruct v; try reflexivity.
+  - destruct (Z.leb_spec 0 len); [lia|]. f_equal. f_equal. lia.
+  - destruct (Z.leb_spec 0 len); [lia|]. f_equal. f_equal. lia.
+  - destruct (Z.leb_spec 0 i); [lia|reflexivity].
+Qed.
+
+Print Assumptions pump_j2c_total.
+Print Assumptions pump_j2c_err_iff.
+Print Assumptions pump_j2c_value.
+
+(* ====================================================================== *)
+(* 9. CBOR -> JSON                                                         *)
+(* ====================================================================== *)
+
+(* ---------- which token lists the JSON encoder completes (any oracle) ------ *)
+
+Definition json_repr_all (ts : list token) : bool := forallb (fun t => json_repr (tv t)) ts.
+
+Lemma jenc_run_unrepr sh o : forall ts s k,
+  jinv_gen (jcur s) (jstack s) -> Exists (fun t => json_repr (tv t) = false) ts ->
+  match jenc_run sh o s ts k with
+  | JFinished _ n => (n < k + length ts)%nat
+  | JStarved _ _ => False
+  | _ => True
+  end.
+Proof.
+  induction ts as [|t ts IH]; intros s k Hinv Hex; [inversion Hex|].
+  cbn [jenc_run]. destruct (json_repr (tv t)) eqn:Hr.
+  - assert (Hex' : Exists (fun t => json_repr (tv t) = false) ts).
+    { apply Exists_cons in Hex. destruct Hex as [Hh|Ht]; [congruence|exact Ht]. }
+    pose proof (json_step_refines sh o s t Hinv Hr) as H.
+    destruct (jenc_step sh o s t) as [[s' out] r]. destruct H as [Hres Hnext].
+    destruct (ctx_step key_json (abs_j (jcur s) (jstack s)) (tv t)) as [c'| |]; destruct r; cbn in Hres;
+      try contradiction; try exact I.
+    + destruct (Hnext c' eq_refl) as [_ Hinv']. specialize (IH s' (S k) Hinv' Hex').
+      destruct (jenc_run sh o s' ts (S k)); cbn [jprepend length]; try exact I; try contradiction. lia.
+    + cbn [length]. destruct ts; [inversion Hex'|cbn [length]; lia].
+  - pose proof (json_unrepresentable_is_error sh o s t Hinv Hr) as H.
+    destruct (jenc_step sh o s t) as [[s' out] r]. subst r. exact I.
+Qed.
+
+Lemma jinv_init : jinv_gen (jcur jenc_init) (jstack jenc_init).
+Proof. split; [constructor|reflexivity]. Qed.
+
+(* a byte string, NaN or an infinity anywhere in the item makes the pump fail *)
+Theorem pump_c2j_unrepresentable : forall sh o c bs toks rest a,
+  dec_run c bs = DOk toks rest a -> json_repr_all toks = false -> pump_c2j sh o c bs = PumpErr.
+Proof.
+  intros sh o c bs toks rest a H Hr. unfold pump_c2j. rewrite H.
+  assert (Hex : Exists (fun t => json_repr (tv t) = false) toks).
+  { unfold json_repr_all in Hr. apply Exists_exists.
+    destruct (forallb (fun t => json_repr (tv t)) toks) eqn:E; [discriminate|].
+    clear Hr. induction toks as [|t ts IH]; [discriminate|]. cbn [forallb] in E.
+    destruct (json_repr (tv t)) eqn:Et.
+    - destruct (IH E) as (x & Hin & Hx). exists x. split; [right; exact Hin|exact Hx].
+    - exists t. split; [left; reflexivity|exact Et]. }
+  pose proof (jenc_run_unrepr sh o toks jenc_init 0%nat jinv_init Hex) as Hrun.
+  unfold jenc_tokens. destruct (jenc_run sh o jenc_init toks 0) as [chunks n| | |]; try reflexivity.
+  cbn [plus] in Hrun. destruct (Nat.eqb_spec n (length toks)); [lia|reflexivity].
+Qed.
+
+(* the pump succeeds exactly on representable tokens whose map keys are strings *)
+Theorem pump_c2j_ok_iff : forall sh o c bs toks rest a,
+  dec_run c bs = DOk toks rest a ->
+  ((exists out, pump_c2j sh o c bs = PumpOk out rest) <->
+   (json_repr_all toks = true /\ json_keys_ok toks = true)).
+Proof.
+  intros sh o c bs toks rest a H. split.
+  - intros [out Hp].
+    destruct (json_repr_all toks) eqn:Hr.
+    2:{ rewrite (pump_c2j_unrepresentable sh o c bs toks rest a H Hr) in Hp. discriminate. }
+    split; [reflexivity|].
+    unfold pump_c2j in Hp. rewrite H in Hp.
+    assert (Hall : Forall (fun t => json_repr (tv t) = true) toks).
+    { apply Forall_forall. unfold json_repr_all in Hr. rewrite forallb_forall in Hr. exact Hr. }
+    pose proof (json_encoder_accepts_grammar sh o toks Hall) as Ag.
+    destruct (jenc_tokens sh o toks) as [chunks k| | |]; try discriminate.
+    destruct (Nat.eqb k (length toks)) eqn:E; [|discriminate].
+    unfold json_keys_ok, grammar_okb.
+    destruct (ctx_run key_json [] toks 0) as [m| |]; cbn in Ag; try contradiction. subst m. exact E.
+  - intros [Hr Hk].
+    assert (Hall : Forall (fun t => json_repr (tv t) = true) toks).
+    { apply Forall_forall. unfold json_repr_all in Hr. rewrite forallb_forall in Hr. exact Hr. }
+    pose proof (json_encoder_accepts_grammar sh o toks Hall) as Ag.
+    unfold json_keys_ok, grammar_okb in Hk.
+    destruct (ctx_run key_json [] toks 0) as [m| |]; try discriminate.
+    apply Nat.eqb_eq in Hk. subst m.
+    unfold pump_c2j. rewrite H.
+    destruct (jenc_tokens sh o toks) as [chunks k| | |]; cbn in Ag; try contradiction. subst k.
+    rewrite Nat.eqb_refl. eauto.
+Qed.
+
+Theorem pump_c2j_error : forall sh o c bs e toks a,
+  dec_run c bs = DFail e toks a -> pump_c2j sh o c bs = PumpErr.
+Proof. intros sh o c bs e toks a H. unfold pump_c2j. rewrite H. reflexivity. Qed.
+
+Definition jtail (o : jopts) (ts : list token) : bytes :=
+  match ts with
+  | t :: _ =>
+      match tv t with
+      | ArrOpen _ | MapOpen _ => match jline o with Some l => l | None => [] end
+      | _ => []
+      end
+  | [] => []
+  end.
+
+Lemma top_tail_jtail o n : top_tail o n = jtail o (flatten n).
+Proof. destruct n as [tg v]; destruct v; reflexivity. Qed.
+
+(* ---------- value preservation, under the float oracle hypothesis of
+              JsonEncProof.v (same Section variables, same [Hflt]) ---------- *)
+Section ToJson.
+  Variable sh : Z -> list Z * Z.          (* the shortest-digits oracle *)
+  Variable float_ok : Z -> Prop.          (* floats the round trip is claimed for *)
+  Variable fnorm : Z -> tval.             (* how a float's text reads back *)
+  Hypothesis Hflt : forall b rest, float_ok b -> terminator_ok rest ->
+    exists first more, emit_float sh b = Some [first :: more] /\
+      (first = 45 \/ is_digit first = true) /\
+      is_leaf (fnorm b) = true /\
+      dec_number first (more ++ rest) = inl (leaf_tok (fnorm b), rest) /\
+      match fnorm b with VInt _ | VUint _ | VFlt _ => True | _ => False end.
+
+  (* tokens JSON can carry: no byte strings, floats for which the oracle is trusted *)
+  Definition jtok_ok (t : token) : Prop :=
+    match tv t with Byt _ => False | Flt b => float_ok b | _ => True end.
+
+  (* the normalisation of a JSON round trip (JsonEncProof.jnorm) on tokens: tags
+     and lengths are not carried, strings are coerced to valid UTF-8, an
+     unsigned number that fits int64 reads back signed, a float reads back as
+     the number its shortest text denotes *)
+  Definition jnorm_tok (t : token) : token :=
+    Tok (match tv t with
+         | Str s => Str (coerce_utf8 s)
+         | Uint u => if u <=? max_int64 then Int u else Uint u
+         | Flt b => leaf_tok (fnorm b)
+         | ArrOpen _ => ArrOpen (-1)
+         | MapOpen _ => MapOpen (-1)
+         | v => v
+         end) None.
+
+  Lemma jtail_jnorm o ts : jtail o (map jnorm_tok ts) = jtail o ts.
+  Proof.
+    destruct ts as [|[v tg] ts]; [reflexivity|]. cbn [map jtail]. unfold jnorm_tok. cbn [tv].
+    destruct v; try reflexivity.
+    - destruct (u <=? max_int64); reflexivity.
+    - (* a float never reads back as a container *)
+      destruct (fnorm bits); reflexivity.
+  Qed.
+
+  Lemma flatten_jnorm n : json_ok float_ok n -> flatten (jnorm fnorm n) = map jnorm_tok (flatten n).
+  Proof.
+    induction n as [tg v Hleaf|tg d items IH|tg d es IH] using tnode_ind'; intros Hok.
+    - cbn [json_ok] in Hok.
+      destruct v; try contradiction; cbn [jnorm flatten map]; unfold jnorm_tok; cbn [tv]; try reflexivity.
+      + destruct (u <=? max_int64); reflexivity.
+      + destruct (Hflt bits [] Hok I) as (first & more & _ & _ & Hl & _).
+        rewrite (flatten_leaf None _ Hl). reflexivity.
+    - cbn [json_ok] in Hok. apply fold_pair_Forall in Hok.
+      cbn [jnorm flatten map]. unfold jnorm_tok at 1. cbn [tv]. f_equal.
+      rewrite map_app. cbn [map]. f_equal.
+      pose proof (Forall_mp _ _ _ IH Hok) as Hq. clear IH Hok.
+      induction Hq as [|x xs Hx _ IHxs]; [reflexivity|].
+      cbn [map flat_map]. rewrite map_app, Hx, IHxs. reflexivity.
+    - cbn [json_ok] in Hok.
+      apply (fold_pair_Forall (fun kv => match fst kv with Node _ (VStr k) => bytes_ok k | _ => False end
+                                         /\ json_ok float_ok (snd kv))) in Hok.
+      cbn [jnorm flatten map]. unfold jnorm_tok at 1. cbn [tv]. f_equal.
+      rewrite map_app. cbn [map]. f_equal.
+      induction IH as [|[k w] xs [Hk Hw] _ IHxs]; [reflexivity|].
+      inversion Hok as [|? ? [Hkk Hww] Hok']; subst. cbn [fst snd] in *.
+      cbn [map flat_map fst snd]. rewrite !map_app, <- Hw, <- IHxs by assumption.
+      f_equal. destruct k as [ktg kv]. destruct kv; try contradiction. reflexivity.
+  Qed.
+
+  Lemma json_ok_of_shape sg n :
+    shape sg n -> wf_keys key_json n -> Forall jtok_ok (flatten n) -> json_ok float_ok n.
+  Proof.
+    induction n as [tg v Hleaf|tg d items IH|tg d es IH] using tnode_ind'; intros Hs Hwf Ht.
+    - destruct Hs as [_ Hv].
+      destruct v; try contradiction; cbn [json_ok]; cbn [flatten] in Ht;
+        inversion Ht as [|? ? Ht1 _]; subst; unfold jtok_ok in Ht1; cbn [tv] in Ht1;
+        unfold min_int64, max_int64, max_uint64; auto; try lia.
+      destruct sg; lia.
+    - destruct Hs as (_ & _ & _ & Hitems). apply fold_pair_Forall in Hitems. apply wf_arr in Hwf.
+      cbn [flatten] in Ht. inversion Ht as [|? ? _ Ht']; subst.
+      apply Forall_app in Ht'. destruct Ht' as [Ht' _]. apply Forall_flat_map in Ht'.
+      cbn [json_ok]. apply fold_pair_Forall.
+      clear -IH Hitems Hwf Ht'.
+      induction IH as [|x xs Hx _ IHxs]; [constructor|].
+      inversion Hitems; inversion Hwf; inversion Ht'; subst. constructor; auto.
+    - destruct Hs as (_ & _ & _ & Hes).
+      apply (fold_pair_Forall (fun kv => shape sg (fst kv) /\ shape sg (snd kv))) in Hes.
+      apply wf_map in Hwf.
+      cbn [flatten] in Ht. inversion Ht as [|? ? _ Ht']; subst.
+      apply Forall_app in Ht'. destruct Ht' as [Ht' _]. apply Forall_flat_map in Ht'.
+      cbn [json_ok].
+      apply (fold_pair_Forall (fun kv => match fst kv with Node _ (VStr k) => bytes_ok k | _ => False end
+                                         /\ json_ok float_ok (snd kv))).
+      clear -IH Hes Hwf Ht'.
+      induction IH as [|[k w] xs [Hk Hw] _ IHxs]; [constructor|].
+      inversion Hes as [|? ? [Sk Sw] Hes']; inversion Hwf as [|? ? [Wk Ww] Hwf'];
+        inversion Ht' as [|? ? Tkw Ht'']; subst.
+      cbn [fst snd] in *. apply Forall_app in Tkw. destruct Tkw as [_ Tw].
+      constructor; [|apply IHxs; assumption].
+      cbn [fst snd]. split; [|apply Hw; assumption].
+      destruct k as [ktg kv]. cbn [key_wf] in Wk. destruct Wk as [Wl Wj].
+      destruct kv; try discriminate. destruct Sk as [_ Sk]. exact Sk.
+  Qed.
+
+  (* the tree-level core: any tree in JSON's data model *)
+  Lemma c2j_core o c bs n rest a :
+    ws_opts o -> dec_run c bs = DOk (flatten n) rest a -> json_ok float_ok n ->
+    exists out, pump_c2j sh o c bs = PumpOk out rest /\
+                jdec_run out = JDOk (flatten (jnorm fnorm n)) (top_tail o n).
+  Proof.
+    intros Ho H Hn.
+    destruct (json_encode_parses sh float_ok fnorm Hflt o n [] Ho Hn I) as (chunks & Hrun & fuel & Hp).
+    rewrite !app_nil_r in Hp.
+    exists (concat chunks). split.
+    - unfold pump_c2j. rewrite H, Hrun, Nat.eqb_refl. reflexivity.
+    - apply (jdec_complete fuel). apply strict_implies_lenient. exact Hp.
+  Qed.
+
+  (* 4. value preservation *)
+  Theorem pump_c2j_value : forall o c bs toks rest a,
+    ws_opts o -> bytes_ok bs -> dec_run c bs = DOk toks rest a ->
+    Forall jtok_ok toks -> json_keys_ok toks = true ->
+    exists out,
+      pump_c2j sh o c bs = PumpOk out rest /\
+      jdec_run out = JDOk (map jnorm_tok toks) (jtail o toks) /\
+      (exists n, parse_item c bs = POk n rest /\ toks = flatten n /\
+                 exists fuel, jpvalue fuel false out = POk (jnorm fnorm n) (jtail o toks)).
+  Proof.
+    intros o c bs toks rest a Ho Hb H Ht Hk.
+    destruct (dec_sound _ _ _ _ _ H) as (n & Hp & ->).
+    pose proof Hp as Hp'. unfold parse_item in Hp'.
+    destruct (pitem_shape _ _ _ _ _ Hb Hp') as [Hs _].
+    apply grammar_ok_wf in Hk.
+    pose proof (json_ok_of_shape _ _ Hs Hk Ht) as Hn.
+    destruct (json_encode_parses sh float_ok fnorm Hflt o n [] Ho Hn I) as (chunks & Hrun & fuel & Hpj).
+    rewrite !app_nil_r in Hpj.
+    exists (concat chunks). split; [|split].
+    - unfold pump_c2j. rewrite H, Hrun, Nat.eqb_refl. reflexivity.
+    - rewrite <- flatten_jnorm by exact Hn. rewrite <- top_tail_jtail.
+      apply (jdec_complete fuel). apply strict_implies_lenient. exact Hpj.
+    - exists n. split; [exact Hp|]. split; [reflexivity|]. exists fuel. rewrite <- top_tail_jtail. exact Hpj.
+  Qed.
+End ToJson.
+
+Print Assumptions pump_c2j_unrepresentable.
+Print Assumptions pump_c2j_ok_iff.
+Print Assumptions pump_c2j_value.
